@@ -505,12 +505,17 @@ func runC14(c *Ctx) {
 	c14PrefixNotPath(c, stPkgs)
 	c14CloseOnce(c, stPkgs)
 	ruleDelegateErr(c, "DELEGATE-ERR", stPkgs)
+	if q := c.P.Pkg("private/pkg/storage"); q != nil {
+		c14MatcherNamesake(c, q)
+		c14WrappersStateless(c, q)
+	}
 	ruleOpenTruncates(c, "OPEN-TRUNCATES")
 	// a failed put must not change the map: the disk bucket's atomic writer (shared with C15)
 	c15AtomicWriter(c)
 	// "equivalent spellings of a path denote the same object": every bucket operation works on the sanitised
 	// spelling - the raw parameter reaches no map key, mapper, matcher or file-system call (shared with C13)
 	c13MustValidate(c)
+	c13AbsValid(c, "R-ABSVALID")
 }
 
 // ruleOneCriticalSection (added after seeded change C14-b): in every method of typeName, all accesses to the
